@@ -159,6 +159,40 @@ func c10Run(w *W) {
 		}
 		fl = append(fl, inflight{w.Do(fmt.Sprintf("%s#%d", label, i), fn), onCtx})
 	}
+	// endpoint creation racing the close: NewDialer / NewListener apply their
+	// options in several locked steps, Dial and Listen start background work;
+	// a Close landing anywhere inside must still leave nothing behind
+	var paddr string
+	if nrace := w.Choose(simrt.SProg, 3); nrace > 0 {
+		if tran != "msg" && w.Choose(simrt.SProg, 2) == 0 {
+			// somebody who accepts: a leaked dialer would really connect
+			ps := w.Sock(peerKind[kind])
+			all = append(all, ps)
+			paddr = w.Addr(tran)
+			if err := ps.Listen(paddr); err != nil {
+				paddr = ""
+			}
+		}
+		for i := 0; i < nrace; i++ {
+			target := daddr
+			if paddr != "" {
+				target = paddr
+			}
+			async := w.Choose(simrt.SProg, 2) == 0
+			if w.Choose(simrt.SProg, 3) == 0 {
+				fresh := w.Addr(tran)
+				fl = append(fl, inflight{w.Do(fmt.Sprintf("ListenOptions#%d", i), func() (interface{}, error) {
+					return nil, s.ListenOptions(fresh, map[string]interface{}{mangos.OptionMaxRecvSize: 4096})
+				}), false})
+				continue
+			}
+			fl = append(fl, inflight{w.Do(fmt.Sprintf("DialOptions#%d", i), func() (interface{}, error) {
+				return nil, s.DialOptions(target, map[string]interface{}{mangos.OptionDialAsynch: async,
+					mangos.OptionReconnectTime: 20 * time.Millisecond, mangos.OptionMaxReconnectTime: 40 * time.Millisecond, mangos.OptionMaxRecvSize: 4096})
+			}), false})
+		}
+		w.Probe("endpoint-creation-races-close")
+	}
 	if w.Choose(simrt.SProg, 2) == 0 {
 		w.Settle()
 	}
@@ -198,6 +232,7 @@ func c10Run(w *W) {
 		}
 	}
 	t0 := w.Now()
+	sockClosedOnce := false
 	w.Settle()
 	if w.Failed() {
 		return
@@ -226,11 +261,21 @@ func c10Run(w *W) {
 			}
 		}
 		w.Probe("socket-close-unblocked-calls")
+		for _, f := range fl {
+			if strings.HasPrefix(f.c.Label, "DialOptions#") || strings.HasPrefix(f.c.Label, "ListenOptions#") {
+				if f.c.RetStep > cl.InvStep && f.c.InvStep < cl.InvStep {
+					if f.c.Err == mangos.ErrClosed {
+						w.Probe("endpoint-creation-overlapped-close:closed")
+					} else {
+						w.Probe("endpoint-creation-overlapped-close:" + errName(f.c.Err))
+					}
+				}
+			}
+		}
 		// later calls fail with a closed error (or unsupported, or return a queued message) at once
 		later := []*Call{
 			w.Do("Send(after close)", func() (interface{}, error) { return nil, SendBody(s, kind, []byte("x")) }),
 			w.Do("Recv(after close)", func() (interface{}, error) { return s.Recv() }),
-			w.Do("Close(again)", func() (interface{}, error) { return nil, s.Close() }),
 			w.Do("Dial(after close)", func() (interface{}, error) { return nil, s.Dial(w.Addr("msg")) }),
 			w.Do("Listen(after close)", func() (interface{}, error) { return nil, s.Listen(w.Addr("msg")) }),
 			w.Do("NewDialer(after close)", func() (interface{}, error) { _, e := s.NewDialer(w.Addr("msg"), nil); return nil, e }),
@@ -238,6 +283,13 @@ func c10Run(w *W) {
 			w.Do("OpenContext(after close)", func() (interface{}, error) { _, e := s.OpenContext(); return nil, e }),
 			w.Do("GetOption(after close)", func() (interface{}, error) { return s.GetOption(mangos.OptionMaxRecvSize) }),
 		}
+		// (a second Close sweeps up whatever the first one missed - an endpoint
+		// registered while it ran - so most runs do without it)
+		closedTwice := w.Choose(simrt.SProg, 4) == 0
+		if closedTwice {
+			later = append(later, w.Do("Close(again)", func() (interface{}, error) { return nil, s.Close() }))
+		}
+		sockClosedOnce = !closedTwice
 		if ctx != nil {
 			later = append(later,
 				w.Do("ctx.Send(after close)", func() (interface{}, error) { return nil, ctx.Send([]byte("x")) }),
@@ -275,6 +327,20 @@ func c10Run(w *W) {
 			}
 		}
 		w.Probe("context-close")
+		// ... and only them: a Send blocked on the socket itself (REQ with no
+		// peer yet) goes out as soon as a peer is there
+		if kind == "req" && tran == "msg" && npeers == 0 {
+			if p := mn.Connect(laddr); p != nil {
+				w.Settle()
+				for _, f := range fl {
+					if !f.onCtx && strings.HasPrefix(f.c.Label, "Send#") && !f.c.Returned() {
+						w.Failf("C10/context-close-harmed-others", "%s on the REQ socket was blocked for lack of a peer when one of the socket's other contexts was closed; a peer is attached now and the Send is still pending", f.c.Label)
+						return
+					}
+				}
+				w.Probe("context-close-leaves-other-senders")
+			}
+		}
 	}
 	// closing a part leaves the rest working: the socket still accepts
 	if what != "socket" && what != "listener" && tran == "msg" {
@@ -287,6 +353,9 @@ func c10Run(w *W) {
 	// shut everything down; the peers stay silent; run the clock
 	for _, x := range all {
 		x := x
+		if x == s && sockClosedOnce {
+			continue // closed exactly once, by the close under test
+		}
 		w.Do("Close(all)", func() (interface{}, error) { return nil, x.Close() })
 	}
 	w.Settle()
@@ -306,6 +375,10 @@ func c10Run(w *W) {
 	}
 	w.Delivery += len(fl)
 	w.Census("C10", all...)
+	if w.Failed() {
+		return
+	}
+	w.QuietCheck(20 * time.Minute)
 	if w.Failed() {
 		return
 	}
